@@ -174,6 +174,7 @@ type Sim struct {
 	start        time.Time
 	lastProgress time.Time
 	frozenUntil  int64
+	held         int
 	steps        int
 	trace        []Decision
 	replayPos    int
@@ -539,6 +540,7 @@ func (s *Sim) clientsDone() bool {
 
 //go:norace
 func (s *Sim) eligible(now int64) (mask uint64, list []*Task) {
+	s.held = 0
 	for i := 0; i < s.ntasks; i++ {
 		t := s.tasks[i]
 		if t.state != stParked {
@@ -548,6 +550,7 @@ func (s *Sim) eligible(now int64) (mask uint64, list []*Task) {
 			continue
 		}
 		if now < t.stallUntil || now < s.frozenUntil {
+			s.held++ // runnable, held back only by an injected stall or clock jump
 			continue
 		}
 		mask |= 1 << uint(i)
@@ -636,11 +639,24 @@ func (s *Sim) Run() {
 
 //go:norace
 func (s *Sim) idle(now time.Time) bool {
+	s.St.IdleWaits++
+	if s.held > 0 {
+		// a runnable task is being held back by an injected stall or clock jump: that is not a hang,
+		// however long it lasts; the fault's own timer will poke the scheduler
+		s.lastProgress = now
+		raceDisable()
+		select {
+		case <-s.poke:
+		default:
+		}
+		<-s.poke
+		raceEnable()
+		return true
+	}
 	left := s.cfg.Horizon - now.Sub(s.lastProgress)
 	if left <= 0 {
 		return false
 	}
-	s.St.IdleWaits++
 	// only the simulator's own channel traffic is hidden from the race detector; the timer is created
 	// outside that region (package time synchronises its lazy initialisation with a sync.Once)
 	tm := time.NewTimer(left)
@@ -657,6 +673,18 @@ func (s *Sim) idle(now time.Time) bool {
 		ok = false
 	}
 	raceEnable()
+	if !ok {
+		// a library timer due at the very same instant as the horizon must win: let everything that
+		// fired settle, then look for its poke
+		s.wait()
+		raceDisable()
+		select {
+		case <-s.poke:
+			ok = true
+		default:
+		}
+		raceEnable()
+	}
 	return ok
 }
 
